@@ -56,7 +56,8 @@ func (s *sqlJsonParser) String(ctx *sql.Ctx, opts ...int) (string, error) {
 			return "", err
 		}
 	}
-	return fmt.Sprintf("mapFromArrays([%s], [%s])",
+	// an extraction that finds nothing (missing path, not JSON: '') writes no label: the label it would overwrite is kept
+	return fmt.Sprintf("mapFilter((k,v) -> v != '', mapFromArrays([%s], [%s]))",
 		strings.Join(strLabels, ","),
 		strings.Join(strVals, ",")), nil
 }
